@@ -84,6 +84,10 @@ class TLCResult:
                     buf += " " + lines[i].strip()
                 res.append(parse_tla(buf))
             i += 1
+        # TLC's workers print in any order: scenario lists are returned in a canonical order, so that a seeded selection from
+        # them is the same in every run (verdict lines of the single-worker trace validation keep their order)
+        if tag not in ("BAD", "DONE", "DRIFT"):
+            res.sort(key=lambda v: json.dumps(v, sort_keys=True, default=str))
         return res
 
     def coverage(self):
@@ -387,7 +391,7 @@ class Check:
         env.update({"DARSIA_VERIF_TRACE": out, "DARSIA_VERIF_RECORD": what, "DARSIA_VERIF": "1",
                     "PYTHONPATH": os.pathsep.join([VERIF, os.path.join(repo, "src")])})
         cmd = [sys.executable, "-W", "ignore", "-m", "pytest", "-q", "-p", "no:cacheprovider", "-p", "lib.suite_recorder"] + \
-              [os.path.join(troot, "tests", "unit", t) for t in tests]
+              [t if t.startswith("-") else os.path.join(troot, "tests", "unit", t) for t in tests]      # ("-k", "--deselect=..." pass through)
         try:
             p = subprocess.run(cmd, cwd=self.work, capture_output=True, text=True, timeout=timeout, env=env)
         except subprocess.TimeoutExpired:
